@@ -113,6 +113,11 @@ def dynamic_tables(db, rep):
         return
     fields = [f['name'] for f in adt['variants'][0]['fields']]
     rep.floor('C13.dynamic', 'DynamicParams fields', len(fields), 340)
+    # the length the Vec<usize> -> DynamicParams conversion insists on is the number of fields
+    import literals
+    ndp = literals.const_value(db, 'swiftness_air::layout::dynamic::N_DYNAMIC_PARAMS')
+    if ndp is not None:
+        rep.ob('C13.dynamic', 'N_DYNAMIC_PARAMS', ndp == len(fields), f'N_DYNAMIC_PARAMS = {ndp}; DynamicParams has {len(fields)} fields', '', cfg)
     to_vec = [f for p, f in db.fns.items() if 'From<swiftness_air::dynamic::DynamicParams> for alloc::vec::Vec<usize>' in p and p.endswith('::from')]
     from_vec = [f for p, f in db.fns.items() if p.startswith('<swiftness_air::dynamic::DynamicParams as core::convert::From<alloc::vec::Vec<usize>') and p.endswith('::from')]
     if len(to_vec) != 1 or len(from_vec) != 1:
